@@ -302,6 +302,9 @@ class RecordTemplate:
                 elif isinstance(p, ast.FormattedValue):
                     if p.format_spec is not None or p.conversion != -1:
                         out += '{FMT:' + unparse(p) + '}'
+                    elif isinstance(p.value, ast.JoinedStr) or (isinstance(p.value, ast.Call) and isinstance(p.value.func, ast.Attribute) and p.value.func.attr == 'join'
+                                                                 and isinstance(p.value.func.value, ast.Constant) and p.value.func.value.value == ''):
+                        out += self.fmt(p.value, loopvars)  # a text placed in a text is that text
                     else:
                         out += self.field(p.value, loopvars)
             return out
